@@ -76,7 +76,7 @@ def per_decoder(res, ctx, rng):
     inv = H.inventory()
     names = [n for i, n in enumerate(inv['decodable']) if ctx.mine(i)]
     for name in names:
-        for rep in range(ctx.pick(2, 10)):
+        for rep in range(ctx.pick(2, 40)):
             if name in domain.TEXT_PAYLOAD:
                 if name == 'VFS_LOOKUP':
                     seq = H.lookup(rng.getrandbits(40), rng.choice(H.PATHS))
@@ -103,7 +103,7 @@ def per_decoder(res, ctx, rng):
 
 
 def scenario_mixes(res, ctx, rng):
-    for h in range(ctx.pick(250, 4000)):
+    for h in range(ctx.pick(400, 40000)):
         nthreads = rng.choice((1, 1, 2, 3))
         programs = []
         for t in range(nthreads):
